@@ -199,3 +199,40 @@ def check_level_swap_order(ctx, F, rule="E-CANON.swap"):
     ctx.ob(rule, rule + ":relabel-before-insert", ok,
            "level_swap (%s): the rewritten node must get the stale number of its new level (set_level) before it is "
            "inserted into that level" % where)
+    check_level_swap_lookup(ctx, F)
+
+def check_level_swap_lookup(ctx, F, rule="E-CANON.swap"):
+    """While level_swap rebuilds the old upper level, the nodes of that level live in two places: the ones already
+    handled are in the new lower view, the others still in the *taken* old-upper view.  A node that is about to be
+    created for the new lower level must be looked up in both (`old_upper.get(..)`, then
+    `lower.get_or_insert_unchecked(..)`); looking only at the live view creates a duplicate of a node that is still
+    referenced and later drops the original from every unique table."""
+    n = 0
+    for fid, m in sorted(F.mir.items()):
+        if not fid.startswith("oxidd_reorder::level_swap"):
+            continue
+        B = cfg.Body(m)
+        gets, inserts = [], []
+        for i, t in B.calls():
+            decl = cfg.callee_decl(t) or cfg.callee_name(t) or ""
+            if not t.get("a"):
+                continue
+            a0 = t["a"][0]
+            l = a0.get("mv", a0.get("cp"))
+            ty = m["locals"][l]["ty"] if isinstance(l, int) else ""
+            if decl.endswith("LevelView::get"):
+                gets.append((i, "Taken" in ty or "::Taken" in ty))
+            if decl.endswith("LevelView::get_or_insert_unchecked"):
+                inserts.append(i)
+        if not inserts:
+            continue
+        n += 1
+        taken_gets = [i for i, tk in gets if tk]
+        ok = bool(taken_gets) and all(any(B.can_reach(g, ins) for g in taken_gets) for ins in inserts)
+        ctx.ob(rule + ".lookup", "%s.lookup:%s" % (rule, re.sub(r"\{closure#\d+\}", "{closure}", fid)), ok,
+               "%s (%s): %s" % (F.nice(fid), F.where(fid),
+                                "a node for the new lower level is looked up in the taken old-upper view before it is inserted" if ok else
+                                "get_or_insert_unchecked on the new lower view is not preceded by a lookup in the taken old-upper "
+                                "view: an equal node that has not been moved yet is duplicated"))
+    ctx.floor(rule + ".lookup", "node-creating closures of level_swap", n, 1)
+    return n
